@@ -37,9 +37,11 @@ var kinds = []Kind{
 		Body: []string{"cpy r1, r0", "inc r1"},
 		Eval: func(in []uint8) []uint8 { return []uint8{in[0], in[0] + 1} },
 	},
-	{ // unary with the input in r1, the output in r0 and an extra scratch register r2 (2x+1)
+	{ // unary with the input in r1, the output in r0 and an extra scratch register r3 (2x+1); r2 is deliberately
+		// skipped: the registers used by a CP holding this fragment have a gap, so the first free register (r2)
+		// is followed by a used one (r3) and temporaries cannot simply be numbered upwards from the first free one
 		Name: "scr", ResIn: []string{"r1"}, ResOut: []string{"r0"},
-		Body: []string{"cpy r2, r1", "add r2, r1", "cpy r0, r2", "inc r0"},
+		Body: []string{"cpy r3, r1", "add r3, r1", "cpy r0, r3", "inc r0"},
 		Eval: func(in []uint8) []uint8 { return []uint8{2*in[0] + 1} },
 	},
 }
